@@ -7,7 +7,7 @@ def funcHashes : List (String × String) := [
   ("provider.IdentityProvider.callbackHandleFunc", "636c7715f1e361ec"),
   ("provider.IdentityProvider.loginResponse", "98152b496cd27d27"),
   ("provider.IdentityProvider.errorResponse", "36e97fa86262a93a"),
-  ("provider.Response.sendBackResponse", "ce2f63a132d549be"),
+  ("provider.Response.sendBackResponse", "1a525b7bf734bd74"),
   ("provider.createSignature", "c82c7fa2a02ee920"),
   ("provider.createPostSignature", "63abb0ce7bc8d709"),
   ("provider.createRedirectSignature", "28c3d516d478f83a"),
